@@ -129,10 +129,11 @@ class Summary:
     effect in 'new' (fresh owned object stored), 'null' (released if needed and set NULL),
     'keep' (untouched), 'new?' (fresh object or NULL)."""
 
-    def __init__(self, outcomes, ret_err=True, consumes=()):
+    def __init__(self, outcomes, ret_err=True, consumes=(), needs=()):
         self.outcomes = outcomes
         self.ret_err = ret_err
         self.consumes = consumes     # argument indices whose pointee objects are consumed (moved) on success
+        self.needs = needs           # argument indices (`&obj`) whose object must exist at the call: the callee dereferences it
 
 
 # functions whose contract is to release (or take over) what they are given
@@ -466,6 +467,13 @@ class OwnAnalysis:
             for d in up.j.get("decls", []):
                 if d.get("init", -1) >= 0 and self.fn.nodes[d["init"]].strip() is c:
                     errvar = d["name"]
+        for ai in getattr(summ, "needs", ()):
+            if ai < len(args):
+                a9 = args[ai].strip()
+                loc9 = self.loc_of(a9.children[0]) if a9.k == "UnaryOperator" and a9.j.get("op") == "&" else None
+                if loc9 is not None and st.env.get(loc9) == NULL:
+                    self.report("null-object", c, loc9, "%s() is handed `&%s` while %s is NULL (an earlier call released the object and set the pointer to NULL): "
+                                "the callee dereferences it" % (name, loc9, loc9), st)
         outs = []
         outcomes = summ.outcomes(c) if callable(summ.outcomes) else summ.outcomes
         for cls, effects in outcomes:
